@@ -293,6 +293,126 @@ Definition plan (r : list target) (req : list str) : list target :=
   let need := closure r req in filter (fun t => mem (t_label t) need) r.
 
 (* ------------------------------------------------------------------------------------------ *)
+(* The store above is keyed by LABEL: it is a faithful picture of plz-out only when distinct targets
+   write distinct paths.  Two filegroups may legally output the same path (filegroup.go:1-9); the
+   executable classifier of that input class: *)
+Fixpoint label_pkg (l : str) : str :=
+  match l with
+  | [] => []
+  | c :: r => if N.eqb c 58 (* ':' *) then [] else c :: label_pkg r
+  end.
+Definition out_paths (t : target) : list (str * str) := map (fun o => (label_pkg (t_label t), o)) (t_outs t).
+Definition path_eqb (a b : str * str) : bool := str_eqb (fst a) (fst b) && str_eqb (snd a) (snd b).
+Definition shares_path (t u : target) : bool :=
+  existsb (fun p => existsb (path_eqb p) (out_paths u)) (out_paths t).
+Fixpoint any_shared (ts : list target) : bool :=
+  match ts with
+  | [] => false
+  | t :: r => existsb (shares_path t) r || any_shared r
+  end.
+Definition shared_output_class (r : list target) : option str :=
+  if any_shared r then Some (s "two-targets-write-the-same-output-path") else None.
+
+(* ------------------------------------------------------------------------------------------ *)
+(* PATH-LEVEL model of the one place where two targets write the same path: two filegroups of one
+   package whose sources contain the same directory d of n files, built by two processes, each followed
+   by a genrule of the same process that lists the directory.  filegroupBuilder.Build (filegroup.go:65)
+   for plz-out/gen/p/d, step by step:
+     PCheck   isSameFileContent: the output directory exists and holds exactly the current files
+              -> nothing to do; otherwise it is replaced:
+     PSnap    fs.RemoveAll: the names in the directory are read (Readdirnames; absent directory: nothing to remove)
+     PRm      ... and unlinked one after the other (a name that has vanished is not an error)
+     PRmdir   ... then the directory itself is removed: ENOTEMPTY is an ERROR (the build of the target fails)
+     PLink k  RecursiveCopyOrLinkFile: MkdirAll, then file k, k+1, ... is linked; if the link fails
+              (EEXIST, or the directory has vanished) the fallback copies to a temporary name and renames:
+              either way file k is there afterwards, with the current content
+     PRead    the filegroup is built; the genrule of the same process reads the directory
+   In ONE process theFilegroupBuilder.mutex serialises the two filegroups; across processes each holds
+   only ITS OWN target flock (fga._build.lock / fgb._build.lock): `same_lock = false` below.  `same_lock
+   = true` is the control: both processes build the same filegroup. *)
+Definition dir := option (list (nat * bool)).        (* None: absent; entries (file index, current content?) sorted by index *)
+
+Inductive pc :=
+| PCheck | PSnap | PRm (names : list nat) | PRmdir | PLink (k : nat) | PRead
+| PDone (saw : dir) | PFail.
+
+Fixpoint rm_entry (k : nat) (es : list (nat * bool)) : list (nat * bool) :=
+  match es with
+  | [] => []
+  | e :: r => if Nat.eqb (fst e) k then r else e :: rm_entry k r
+  end.
+Fixpoint put_entry (k : nat) (es : list (nat * bool)) : list (nat * bool) :=
+  match es with
+  | [] => [(k, true)]
+  | e :: r => if Nat.eqb (fst e) k then (k, true) :: r
+              else if Nat.ltb k (fst e) then (k, true) :: e :: r
+              else e :: put_entry k r
+  end.
+Definition complete (n : nat) : list (nat * bool) := map (fun k => (k, true)) (seq 0 n).
+Definition entry_eqb (a b : nat * bool) : bool := Nat.eqb (fst a) (fst b) && Bool.eqb (snd a) (snd b).
+Definition dir_eqb (a b : dir) : bool := option_eqb (list_eqb entry_eqb) a b.
+
+Definition pstep (n : nat) (d : dir) (p : pc) : dir * pc :=
+  match p with
+  | PCheck => if dir_eqb d (Some (complete n)) then (d, PRead) else (d, PSnap)
+  | PSnap => match d with None => (d, PLink 0) | Some es => (d, PRm (map fst es)) end
+  | PRm [] => (d, PRmdir)
+  | PRm (k :: ks) => (match d with None => None | Some es => Some (rm_entry k es) end, PRm ks)
+  | PRmdir => match d with
+              | None | Some [] => (None, PLink 0)
+              | Some (_ :: _) => (d, PFail)
+              end
+  | PLink k => if Nat.ltb k n
+               then (Some (put_entry k (match d with None => [] | Some es => es end)), PLink (S k))
+               else ((match d with None => Some [] | Some es => Some es end), PRead)
+  | PRead => (d, PDone d)
+  | PDone _ | PFail => (d, p)
+  end.
+
+Definition holds_dir_lock (p : pc) : bool :=
+  match p with PSnap | PRm _ | PRmdir | PLink _ => true | _ => false end.
+
+Record dstate := mkD { d_dir : dir; d_p0 : pc; d_p1 : pc }.
+
+(* one event = one process takes its next step; with the same lock a process cannot start on the
+   filegroup (PCheck is done under the flock) while the other is inside *)
+Definition at_check (p : pc) : bool := match p with PCheck => true | _ => false end.
+Definition dblocked (same_lock : bool) (st : dstate) (who : bool) : bool :=
+  if who then same_lock && at_check (d_p1 st) && holds_dir_lock (d_p0 st)
+  else same_lock && at_check (d_p0 st) && holds_dir_lock (d_p1 st).
+Definition dapply (same_lock : bool) (n : nat) (st : dstate) (who : bool) : dstate :=
+  if dblocked same_lock st who then st
+  else if who then let (d, p) := pstep n (d_dir st) (d_p1 st) in mkD d (d_p0 st) p
+  else let (d, p) := pstep n (d_dir st) (d_p0 st) in mkD d p (d_p1 st).
+Definition drun (same_lock : bool) (n : nat) (sched : list bool) (st : dstate) : dstate :=
+  fold_left (dapply same_lock n) sched st.
+(* plz-out before: the directory of an earlier build whose files have changed since (stale), or nothing *)
+Definition dinit (n : nat) (stale : bool) : dstate :=
+  mkD (if stale then Some (map (fun k => (k, false)) (seq 0 n)) else None) PCheck PCheck.
+
+(* no process has failed, and a reader that has run saw the whole directory with the current content *)
+Definition pc_ok (n : nat) (p : pc) : bool :=
+  match p with PFail => false | PDone saw => dir_eqb saw (Some (complete n)) | _ => true end.
+Definition dsafe (n : nat) (st : dstate) : bool := pc_ok n (d_p0 st) && pc_ok n (d_p1 st).
+Definition dfinished (st : dstate) : bool :=
+  match d_p0 st, d_p1 st with PDone _, PDone _ => true | _, _ => false end.
+
+(* every interleaving, by exhaustive exploration (each step that changes something advances a process,
+   so depth `fuel` >= the total number of steps is enough); used for the control only *)
+Definition pc_terminal (p : pc) : bool := match p with PDone _ | PFail => true | _ => false end.
+Fixpoint dexplore (same_lock : bool) (n : nat) (fuel : nat) (st : dstate) : bool :=
+  match fuel with
+  | O => pc_terminal (d_p0 st) && pc_terminal (d_p1 st) && dsafe n st
+  | S f =>
+      let m0 := negb (pc_terminal (d_p0 st)) && negb (dblocked same_lock st false) in
+      let m1 := negb (pc_terminal (d_p1 st)) && negb (dblocked same_lock st true) in
+      dsafe n st
+      && (if m0 then dexplore same_lock n f (dapply same_lock n st false) else true)
+      && (if m1 then dexplore same_lock n f (dapply same_lock n st true) else true)
+      && (m0 || m1 || (pc_terminal (d_p0 st) && pc_terminal (d_p1 st)))      (* nobody is stuck *)
+  end.
+
+(* ------------------------------------------------------------------------------------------ *)
 (* vocabulary of the property statement *)
 
 (* Trust: a record found on outputs that are already in plz-out tells the truth about them
